@@ -81,7 +81,7 @@ def check(rep, model, tier):
     g = model.find('compute_features_2d')
     site = f'{g.path}:{g.node.lineno} compute_features_2d[axis=0]'
     K = grp.K
-    scen = {'None': NONE, 'dict': K(0), 'list3': ('list', (K(0), K(1, 'amp'), K(2)))}
+    scen = {'None': NONE, 'dict': K(0), 'list3': ('list', (K(0), K(1, 'amp'), K(2))), 'list2': ('list', (K(0), K(1, 'amp')))}
     cf = model.find('compute_features')
     for label, kw in scen.items():
         for prog in (NONE, C('tqdm'), C('tqdm.notebook')):
@@ -96,10 +96,10 @@ def check(rep, model, tier):
             if prog != NONE:
                 continue
             if fn_t[0] != 'partial' or fn_t[1][0] != 'funcref':
-                rep.violation('SHARED' if label != 'list3' else 'ZIP-PAIR', inst, site, expected='partial(<package function>, ...)', found=T.brief(fn_t, 100))
+                rep.violation('SHARED' if not label.startswith('list') else 'ZIP-PAIR', inst, site, expected='partial(<package function>, ...)', found=T.brief(fn_t, 100))
                 continue
             target, pargs, pkw, pextra = fn_t[1][1].rsplit('.', 1)[-1], fn_t[2], dict(fn_t[3]), fn_t[4]
-            if label != 'list3':
+            if not label.startswith('list'):
                 first = kw if label == 'dict' else None
                 want = dict(grp.OWN)
                 if first:
@@ -116,7 +116,7 @@ def check(rep, model, tier):
             else:
                 want_it = T.call('zip', (grp.SIGS2, ('list', tuple(grp.without(k, 'return_samples') for k in kw[1]))))
                 if target == '_proxy_2d' and not pargs and not pextra and pkw == grp.OWN and it_t == want_it:
-                    rep.ok('ZIP-PAIR', inst, site, found='zip(sigs, [options_0, options_1, options_2]) in order, each without return_samples')
+                    rep.ok('ZIP-PAIR', inst, site, found=f'zip(sigs, [{len(kw[1])} option sets]) in order, each without return_samples')
                 else:
                     rep.violation('ZIP-PAIR', inst, site, expected=f'partial(_proxy_2d, fs, f_range, return_samples) over {T.brief(want_it, 120)}',
                                   found=f'partial({target}, {({k: T.brief(v, 30) for k, v in pkw.items()})}) over {T.brief(it_t, 200)}')
